@@ -1,11 +1,14 @@
 --------------------------- MODULE MC_YannyCanon ---------------------------
 (* Dumps, for every literal document, what reading any rendering of it must yield.  *)
 EXTENDS Yanny, YannyDocs
-VARIABLES id, canon, nitems
+VARIABLES id, canon, nitems, pairdict
 Init == /\ id \in AllDocIds
         /\ canon = Canon(DocById(id))
         /\ nitems = Len(DocById(id).pairs) + Len(DocById(id).enums) + Len(DocById(id).structs) + Len(DocById(id).rows)
-Next == UNCHANGED <<id, canon, nitems>>
+        /\ pairdict = PairDict(Canon(DocById(id)))
+Next == UNCHANGED <<id, canon, nitems, pairdict>>
 (* the canonical writer's text is itself a rendering *)
+X_RowOfTotal == \A ti \in 1..Len(canon.tables) : RowOf(canon, ti, 0) = <<>> /\ RowOf(canon, ti, Len(canon.tables[ti].rows) + 1) = <<>>
+                   /\ Len(ListOfDicts(canon, ti)) = Len(canon.tables[ti].rows)
 C01_WriteDocRoundTrip == SpecParse(WriteDoc(DocById(id))) = canon
 =============================================================================
